@@ -227,3 +227,149 @@ Proof.
     + discriminate.
   - vm_compute. auto.
 Qed.
+
+(* ================================================================== *)
+(* Several requests in flight (model Sys/TopicBurstC01.v).
+   (1) UNLOAD RACE, "every interleaving with topic unload/reload": the kill timer of the
+   registered instance fires (RTimeout: an unregister request is on its way to the hub), sessions
+   may still attach to that instance and publish, the hub handles the request (RHubUnreg:
+   topicUnreg marks the instance deleted, removes it from the registry, tells it to exit), a {sub}
+   loads a SECOND instance from the store, and the first one, which has not read its exit message
+   yet, handles {pub}s queued for it (RZPub) in any interleaving with the requests handled by the
+   second one - with failing / crashing adapter calls, restarts and any number of pending
+   unregister requests and unregistered instances.
+   (2) WRITE LOOPS: a frame is serialised when the session's write loop takes it from the queue,
+   any time after the topic goroutine produced it (WDrain). *)
+From Tinode Require Import Sys.TopicBurstC01 Sys.TopicBurstC01Proofs.
+
+Section C01Flight.
+Variable dr : Z -> list (Z * Z) -> option (list (Z * Z)).
+Variable nr : list (Z * Z) -> list (Z * Z).
+Variable sm : sessmap.
+
+Definition race_init (s : store) : rstate := mkR (mkState s None 0) 0 [] [].
+
+(* [forallb mid_free h = true]: no unregistration lands INSIDE a publish handler of the instance
+   being unregistered (between its isInactive check and its Save).  The handlers of one instance
+   are atomic with respect to each other, not with respect to the hub goroutine, which writes the
+   status bits; histories with such a step (RHubUnregMid ... RZFinish) refute the statement, see
+   c01_race_no_number_issued_twice_refuted below. *)
+
+(* Along every such race history the numbering invariant of c01_invariant holds for the store and
+   the registered instance, and every unregistered instance is marked deleted. *)
+Theorem c01_race_invariant : forall s h r outs, fresh s -> forallb mid_free h = true ->
+  rrun dr nr sm true (race_init s) h = Some (r, outs) ->
+  inv_num (r_x r) /\ Forall (fun z => z_deleted z = true /\ z_inflight z = None) (r_zomb r).
+Proof.
+  intros s h r outs F M R. destruct (rrun_inv dr nr sm h _ _ _ (rinv_init s F) M R) as [A [B _]]. split; assumption.
+Qed.
+
+(* No number is issued twice: a number whose store.Messages.Save succeeded is never passed to
+   Save again - by either instance (a number whose Save FAILED is passed again by the next
+   publish: "a publish whose save failed consumes no number"). *)
+Theorem c01_race_no_number_issued_twice_partial : forall s h r outs, fresh s -> forallb mid_free h = true ->
+  rrun dr nr sm true (race_init s) h = Some (r, outs) -> issue_ok (r_issued r).
+Proof.
+  intros s h r outs F M R. destruct (rrun_inv dr nr sm h _ _ _ (rinv_init s F) M R) as [_ [_ [_ K]]]. exact K.
+Qed.
+
+(* ... because the unregistered instance refuses: every {pub} it handles is answered with one
+   503 to the publisher and changes nothing (store, registered instance, issue log). *)
+Theorem c01_race_old_instance_refuses : forall s h r outs i z sid content noecho, fresh s ->
+  forallb mid_free h = true ->
+  rrun dr nr sm true (race_init s) h = Some (r, outs) ->
+  nth_error (r_zomb r) i = Some z -> attached (z_ca z) sid = true ->
+  rstep dr nr sm true r (RZPub i sid content noecho) = Some (r, [(sid, Ctrl 503 [])]).
+Proof.
+  intros s h r outs i z sid content noecho F M R NE AT.
+  apply (zombie_refuses dr nr sm r i z); [|exact NE|exact AT].
+  exact (rrun_inv dr nr sm h _ _ _ (rinv_init s F) M R).
+Qed.
+
+(* Whatever the times at which the write loops run (any schedule of requests and dequeue steps),
+   the topic-level run is that of the requests alone and every session reads exactly the frames
+   queued for it, in queueing order.  ASSUMPTION made explicit: a frame is a value - the
+   implementation shares no mutable state between a queued frame and later work of the topic
+   goroutine; the driver checks it by serialising each frame when it is dequeued, with the
+   dequeuing of some sessions delayed until the whole burst has been handled. *)
+Theorem c01_wire_independent_of_delay : forall mark l w w',
+  wrun dr nr sm mark w l = Some w' ->
+  exists outs, rrun dr nr sm mark (w_r w) (wdos l) = Some (w_r w', outs) /\
+    forall sid, for_sid sid (w_wire w' ++ w_queue w') = for_sid sid (w_wire w ++ w_queue w ++ concat outs).
+Proof. exact (wrun_wire dr nr sm). Qed.
+
+(* In every burst of k publishes handled back to back by a loaded instance (same or different
+   sessions and users, attached or not, writers or not) the i-th ACCEPTED publish is acknowledged
+   with lastID+i, every copy broadcast and the push receipt carry that number with its author and
+   content, and the row (lastID+i, author, content) is what is stored; a refused publish gets one
+   error frame and consumes nothing.  With c01_wire_independent_of_delay: whatever the delay of
+   the acknowledgement's serialisation. *)
+Theorem c01_burst_numbers : forall ps x c, ca x = Some c -> inv_num x ->
+  exists c', ca (fst (run dr nr sm x (burst_ops ps))) = Some c' /\
+    burst_spec sm (c_lastid c) (msgs (st x)) ps (snd (run dr nr sm x (burst_ops ps)))
+               (c_lastid c') (msgs (st (fst (run dr nr sm x (burst_ops ps))))).
+Proof. exact (burst_numbers dr nr sm). Qed.
+End C01Flight.
+
+(* The full statement - every race history, including an unregistration that lands inside a
+   publish handler - is REFUTED by the faithful model (and by the real code: findings/C01.md,
+   KNOWN_FINDINGS key unregistered-mid-publish): the instance that passed its isInactive check
+   before the hub marked it saves under lastID+1, the instance loaded meanwhile passes the same
+   number to Save, in either order. *)
+Definition c01_race_no_number_issued_twice_statement : Prop :=
+  forall dr nr sm s h r outs, fresh s ->
+  rrun dr nr sm true (race_init s) h = Some (r, outs) -> issue_ok (r_issued r).
+Theorem c01_race_no_number_issued_twice_refuted : ~ c01_race_no_number_issued_twice_statement.
+Proof.
+  intros H.
+  pose proof (race_witness_mid_issued true) as W. cbn [option_map] in W.
+  destruct (rrun (fun _ _ => None) (fun x => x) [(1%N, 1%N); (2%N, 1%N)] true
+                 (mkR (mkState race_witness_store None 0) 0 [] []) (race_witness_mid true)) as [[r outs]|] eqn:R; [|discriminate].
+  cbn [option_map fst] in W. inversion W as [W1].
+  assert (fresh race_witness_store) as F by (split; reflexivity).
+  specialize (H _ _ _ _ _ _ _ F R). rewrite W1 in H.
+  apply (H [(1, true)] 1 false [] eq_refl). left. reflexivity.
+Qed.
+
+(* The statement for a topicUnreg that does NOT mark the instance before telling it to exit
+   ([mark] = false) is refuted even for the histories of the partial theorem: the old instance
+   accepts a {pub} queued for it under lastID+1 and the second instance passes the same number to Save. *)
+Definition c01_race_unmarked_statement : Prop :=
+  forall dr nr sm s h r outs, fresh s -> forallb mid_free h = true ->
+  rrun dr nr sm false (race_init s) h = Some (r, outs) -> issue_ok (r_issued r).
+Theorem c01_race_unmarked_refuted : ~ c01_race_unmarked_statement.
+Proof.
+  intros H.
+  pose proof (race_witness_issued false) as W. cbn [option_map] in W.
+  destruct (rrun (fun _ _ => None) (fun x => x) [(1%N, 1%N); (2%N, 1%N)] false
+                 (mkR (mkState race_witness_store None 0) 0 [] []) race_witness) as [[r outs]|] eqn:R; [|discriminate].
+  cbn [option_map fst] in W. inversion W as [W1].
+  assert (fresh race_witness_store) as F by (split; reflexivity).
+  assert (forallb mid_free race_witness = true) as M by reflexivity.
+  specialize (H _ _ _ _ _ _ _ F M R). rewrite W1 in H.
+  apply (H [(1, true)] 1 false [] eq_refl). left. reflexivity.
+Qed.
+
+Print Assumptions c01_race_invariant.
+Print Assumptions c01_race_no_number_issued_twice_partial.
+Print Assumptions c01_race_no_number_issued_twice_refuted.
+Print Assumptions c01_race_old_instance_refuses.
+Print Assumptions c01_wire_independent_of_delay.
+Print Assumptions c01_burst_numbers.
+Print Assumptions c01_race_unmarked_refuted.
+
+(* non-vacuity: the race history of the refutation, with the code as it is: the old instance
+   answers 503, the second instance issues number 1 once; and a burst of three publishes by two
+   sessions of one user is acknowledged 1, 2, 3 *)
+Example c01_race_ex :
+  option_map (fun r => (r_issued (fst r), map out_seqs (snd r)))
+    (rrun (fun _ _ => None) (fun x => x) [(1%N, 1%N); (2%N, 1%N)] true (race_init race_witness_store) race_witness)
+  = Some ([(1, true)], [[]; []; []; []; []; []; []; [1; 1; 1]]).
+Proof. vm_compute. reflexivity. Qed.
+Example c01_burst_ex :
+  let x := fst (run (fun _ _ => None) (fun x => x) [(1%N, 1%N); (2%N, 1%N)] (mkState race_witness_store None 0)
+                    [(NoFault, OSub 1 [] false); (NoFault, OSub 2 [] false)]) in
+  map out_seqs (snd (run (fun _ _ => None) (fun x => x) [(1%N, 1%N); (2%N, 1%N)] x
+                         (burst_ops [(1%N, 7%N, false); (2%N, 8%N, true); (1%N, 9%N, false)])))
+  = [[1; 1; 1; 1]; [2; 2; 2]; [3; 3; 3; 3]].
+Proof. vm_compute. reflexivity. Qed.
